@@ -2,6 +2,7 @@ package sim
 
 import (
 	"fmt"
+	"strings"
 	"runtime"
 	"runtime/debug"
 	"sort"
@@ -141,14 +142,22 @@ func gcBetweenRuns() {
 
 // RunFlow executes the general client scenario for one incarnation.
 func RunFlow(w *World, spec *RunSpec, tune func(f *Flow)) *Flow {
-	f := &Flow{W: w, byTopic: map[string]*Pub{}, byID: map[uint16]*Pub{}, OnlineConn: -1}
+	f := &Flow{W: w, byTopic: map[string]*Pub{}, byID: map[uint16]*Pub{}, reqByMarker: map[string]*Req{}, OnlineConn: -1}
 	w.X = f
 	f.O = drawFlowOpts(w.Tape, spec.Thorough)
 	if tune != nil {
 		tune(f)
 	}
 	w.Disk = NewDisk(w)
+	w.Disk.Opts = f.O.Disk
 	w.Broker = NewBroker(w)
+	w.Broker.Opts.SubCode = func(filter string, q byte) byte {
+		if strings.HasSuffix(filter, "/fail") {
+			return 0x80
+		}
+		return q
+	}
+	w.Broker.Opts.Refuse = f.Refuse
 	w.Budget = f.O.Budget
 	f.runGeneration(false)
 	for _, m := range f.Mon {
@@ -178,6 +187,7 @@ func (f *Flow) runGeneration(adopt bool) {
 		faultsOff := w.FaultsOff
 		w.FaultsOff = true // no faults while the session is set up
 		f.pubTasksLive = o.Publishers
+		f.reqTasksLive = o.Requesters
 		s.Go("a-setup", func() {
 			var c *mqtt.Client
 			var err error
@@ -192,6 +202,7 @@ func (f *Flow) runGeneration(adopt bool) {
 			if err != nil {
 				f.FatalSetup = err
 				f.pubTasksLive = 0
+				f.reqTasksLive = 0
 				return
 			}
 			f.C = c
@@ -199,6 +210,10 @@ func (f *Flow) runGeneration(adopt bool) {
 			for i := 0; i < o.Publishers; i++ {
 				name := fmt.Sprintf("pub%d", i)
 				s.Go(name, func() { f.pubTask(s, name, o.PerPub) })
+			}
+			for i := 0; i < o.Requesters; i++ {
+				name := fmt.Sprintf("req%d", i)
+				s.Go(name, func() { f.reqTask(s, name, o.PerReq) })
 			}
 		})
 	})
@@ -333,12 +348,27 @@ func (f *Flow) stuckWhere() string {
 	return "-spinning"
 }
 
-func famC01(w *World, spec *RunSpec, res *RunResult) {
-	f := RunFlow(w, spec, func(f *Flow) {
-		f.Mon = append(f.Mon, &monC01{})
-	})
-	res.Summary = f.summary()
-	res.Touched = w.Probes["retransmitted"] > 0 || w.Probes["accepted_while_down"] > 0
+func allMonitors() []Monitor {
+	return []Monitor{&monC01{}, &monC03{}, &monC05{}, &monC08{}, &monC11{}, &monC14{}, &monC17{}, &monC18{}}
+}
+
+// flowFamily builds a family around the general flow. touched names the probes
+// that make a run non-trivial for the property.
+func flowFamily(tune func(f *Flow), touched ...string) func(w *World, spec *RunSpec, res *RunResult) {
+	return func(w *World, spec *RunSpec, res *RunResult) {
+		f := RunFlow(w, spec, func(f *Flow) {
+			f.Mon = allMonitors()
+			if tune != nil {
+				tune(f)
+			}
+		})
+		res.Summary = f.summary()
+		for _, p := range touched {
+			if w.Probes[p] > 0 || w.Faults[p] > 0 {
+				res.Touched = true
+			}
+		}
+	}
 }
 
 func (f *Flow) summary() string {
@@ -360,5 +390,80 @@ func (f *Flow) summary() string {
 }
 
 func init() {
-	register("C01", Family{Name: "flow", Run: famC01, Weight: 1})
+	register("C01", Family{Name: "flow", Weight: 3, Run: flowFamily(nil, "retransmitted", "accepted_while_down")},
+		Family{Name: "mixed", Weight: 1, Run: flowFamily(func(f *Flow) {
+			f.O.Requesters = 1 + f.W.Tape.Draw("nreq", 2)
+			f.O.PerReq = 1 + f.W.Tape.Draw("perreq", 5)
+		}, "retransmitted", "accepted_while_down")})
+	register("C03", Family{Name: "flow", Weight: 1, Run: flowFamily(func(f *Flow) {
+		f.O.Q2 = 1000
+		if f.W.Tape.Flip("someq1", 300) {
+			f.O.Q2 = 700
+		}
+	}, "pubrel_resent", "retransmitted")})
+	register("C05", Family{Name: "sequential", Weight: 1, Run: flowFamily(func(f *Flow) {
+		f.O.Publishers = 1
+		f.O.PerPub = 4 + f.W.Tape.Draw("perpub5", 12)
+		f.O.ALOMax, f.O.EOMax = 64, 64
+	}, "resend_carried_dup")},
+		Family{Name: "concurrent", Weight: 2, Run: flowFamily(func(f *Flow) {
+			f.O.Publishers = 2 + f.W.Tape.Draw("npub5", 5)
+			f.O.PerPub = 2 + f.W.Tape.Draw("perpub5", 6)
+			if f.W.Tape.Flip("req5", 300) {
+				f.O.Requesters, f.O.PerReq = 1, 4
+			}
+		}, "resend_carried_dup")})
+	register("C08", Family{Name: "concurrent", Weight: 1, Run: flowFamily(func(f *Flow) {
+		f.O.Requesters = 1 + f.W.Tape.Draw("nreq", 3)
+		f.O.PerReq = 2 + f.W.Tape.Draw("perreq", 6)
+		f.O.Net.ShortWrite = 200
+		f.O.Net.WriteBreak = 40
+		if f.O.PauseTimeout == 0 {
+			f.O.PauseTimeout = 250 * time.Millisecond
+		}
+		f.O.BigPayload = 200
+		f.O.Budget += 6
+	}, "short_write_timeout", "write_break")})
+	register("C11", Family{Name: "requests", Weight: 1, Run: flowFamily(func(f *Flow) {
+		f.O.Publishers = f.W.Tape.Draw("npub11", 2)
+		f.O.Requesters = 2 + f.W.Tape.Draw("nreq11", 6)
+		f.O.PerReq = 1 + f.W.Tape.Draw("perreq11", 5)
+		f.O.ReqMix = [rkKinds]int{1, 0, 3, 1, 1, 3, 3}
+	}, "answered_request", "quit_closed_during_request")})
+	register("C14", Family{Name: "matrix", Weight: 1, Run: flowFamily(func(f *Flow) {
+		f.O.Publishers = f.W.Tape.Draw("npub14", 2)
+		f.O.Requesters = 2 + f.W.Tape.Draw("nreq14", 4)
+		f.O.PerReq = 2 + f.W.Tape.Draw("perreq14", 5)
+		f.O.QuitMix = [4]int{2, 1, 2, 3}
+	}, "class_ErrSubmit", "class_ErrBreak", "class_ErrDown", "class_ErrCanceled", "class_ErrAbandoned")})
+	register("C17", Family{Name: "windows", Weight: 1, Run: flowFamily(func(f *Flow) {
+		f.O.ALOMax = []int{1, 0, 2, 3, -1, 20000}[f.W.Tape.Draw("alomax17", 6)]
+		f.O.EOMax = []int{1, 0, 2, 3, -1, 20000}[f.W.Tape.Draw("eomax17", 6)]
+		f.O.Publishers = 1 + f.W.Tape.Draw("npub17", 4)
+		f.O.PerPub = 3 + f.W.Tape.Draw("perpub17", 8)
+		f.O.Requesters = f.W.Tape.Draw("nreq17", 2)
+		f.O.PerReq = 3
+	}, "errmax_returned")})
+	register("C18", Family{Name: "connects", Weight: 1, Run: flowFamily(func(f *Flow) {
+		f.O.Net.DialFail = 300
+		f.O.Net.DialHang = 100
+		f.O.BreakW = 3
+		f.O.Budget += 4
+		f.O.Requesters = 1 + f.W.Tape.Draw("nreq18", 2)
+		f.O.PerReq = 2 + f.W.Tape.Draw("perreq18", 4)
+		f.O.Clean = f.W.Tape.Flip("clean18", 600)
+		if f.W.Tape.Flip("refuse18", 500) {
+			n := f.W.Tape.Draw("refuse-n", 4)
+			rc := byte(1 + f.W.Tape.Draw("refuse-rc", 7))
+			if rc > 5 {
+				rc = byte(6 + f.W.Tape.Draw("refuse-rc2", 250))
+			}
+			f.Refuse = func(k int) byte {
+				if k == n {
+					return rc
+				}
+				return 0
+			}
+		}
+	}, "refused_connack_closed", "reconnect_without_clean", "dial_fail")})
 }
